@@ -85,6 +85,12 @@ CHECKS.update({
          "machine-checked proof in Coq (generalised TLV lemmas + the C01 development replayed for a parametrised peer encoder) + BER-freedom differential testing against implementation and extracted model"),
 })
 
+CHECKS.update({
+ "C13": ("proof", "Coq theorem over the Gallina mirrors of __str__ (all ten filter classes) and of LDAPFilter.from_string (strip, surrogateescape encoding, the recursive-descent parser with absolute offsets, the value unescaper and the substrings / extensible-header splitters, with the regexes regenerated from the source on every run): for every filter tree of any depth and fan-out whose attribute descriptions / matching rules match the generated _ATTRIBUTE_PATTERN and whose shape RFC 4515 can express, and ARBITRARY assertion-value octets, from_string(str(f)) = f, also inside any surrounding text (the parser stops exactly at the end). Separately: every octet string is recovered from its escaped form; the escaped form contains no special octet except the escape backslash; the whole text is ASCII. The regex semantics used are a derivative matcher and a backtracking matcher with captures, for which general lemmas (alphabet of a match, re.sub with a character class) are proved. Print/parse runs on the implementation and the extracted model on every run and is judged by an independent RFC 4515 reference parser.",
+         "wf_tfilter excludes what the text form cannot express: empty and/or lists, substrings with no or empty components, extensible match with neither attribute, rule nor :dn, a rule spelled 'dn' without the :dn flag. The two regex engines model CPython's sre for the constructs these patterns use (classes, concatenation, alternation, greedy star, groups); their agreement with sre is checked by the correspondence only.",
+         "machine-checked proof in Coq (strong induction on the recursion budget, loop-stepping lemmas, regex lemmas) + print/parse differential testing + RFC 4515 reference parser"),
+})
+
 def main():
     m = {
         "version": 1,
